@@ -15,6 +15,7 @@ func TestProp(t *testing.T) {
 			"a response must arrive within 45 s (>= 1000 x the normal latency); goroutines with a qryn frame and open result sets must be gone within 4 s after the request ended; dbVersion's 10 s cache-reset sleeper is ignored; a leak is reported only when it shows again on an immediate second run of the same case",
 			"midfail: the main statement of streams / matrix / vector / Prometheus / trace routes (SQL path and in-process pipelines) fails at row k, k in {0,1,99,100,101,150,250,1000}, as a driver error, a row the scanner cannot scan (NULL cell) or an unparsable log line",
 			"tail: websocket tail histories (healthy / NULL-cell / QueryCtx-error / driver-error / slow polls, a client that stops reading and later drops the connection); a handful of cases per run because the poll interval is fixed at 1 s",
+			"payloads: stored span payloads are whatever the writer accepts (Zipkin JSON as sent: ids of 1-40+ characters, absent/odd members, any JSON type in the members the writer skips; OTLP spans with 16/8-byte id columns), not what a well-behaved tracer sends",
 			"disconnect: every streaming read route with result sets of hundreds to tens of thousands of rows; the consumer goes away after k body bytes (tcp reset with minimal socket buffers, or a ResponseWriter that starts failing, or a dropped websocket on the tail route); non-trivial there: the producer was still active when the consumer went away",
 		},
 	})
@@ -22,5 +23,6 @@ func TestProp(t *testing.T) {
 	addDisc(r)
 	addMid(r)
 	addTail(r)
+	addPayloads(r)
 	r.Main()
 }
